@@ -10,7 +10,7 @@ ENV_ACTIONS = {
 
 
 ALIASES = {'FKill': 'EnvKill', 'FPause': 'EnvPause', 'FPlay': 'EnvPlay', 'FResume': 'EnvResume', 'FFail': 'EnvFail',
-           'FCallSoon': 'EnvCallSoon', 'FRunHandle': 'RunHandle'}
+           'FCallSoon': 'EnvCallSoon', 'FRunHandle': 'RunHandle', 'FRpc': 'EnvRpc'}
 
 
 def perform(run, action, prev_state, new_state):
@@ -24,6 +24,8 @@ def perform(run, action, prev_state, new_state):
             return 'specification runs handle %r, implementation has %r' % (want, got)
         return None
     if action in ('EnvRpc', 'EnvBcast'):
+        if len(params) == 1:           # FRpc(<<intent, text>>)
+            params = params[0]
         run.deliver('rpc' if action == 'EnvRpc' else 'bcast', params[0], params[1])
         return None
     if action == 'EnvComplete':
